@@ -37,7 +37,7 @@ impl Part for AttrPlacement {
         "C08"
     }
     fn rule(&self) -> String {
-        "Struct or enum with 1-4 trait instructions (any of the 24 names, distinct counterpart types), each carrying a random-order subset of vars(..), attribute(..), impl_attribute(..), inner_attribute(..) with a marker unique to the instruction, optionally followed by ..update / return / _ => default. Oracle (tokens): in every impl the instruction produces (2 or 4 for shortcuts) the attribute tokens sit directly before `fn`, the impl_attribute tokens directly before `impl`, the inner_attribute tokens as #![..] first inside the fn body — and no marker of another instruction occurs anywhere in that impl. Non-trivial = >= 2 params on one instruction, or a multi-impl shortcut carrying a param; distinct by input text.".into()
+        "Struct or enum with 1-4 trait instructions (any of the 24 names, distinct counterpart types), each carrying a random-order subset of vars(..), attribute(..), impl_attribute(..), inner_attribute(..) with a marker unique to the instruction, optionally followed by ..update / return / _ => default; 1 in 3 enums give every Into-kind instruction a quick return and hold a #[pattern(_)] variant only From can render. Oracle (tokens): in every impl the instruction produces (2 or 4 for shortcuts) the attribute tokens sit directly before `fn`, the impl_attribute tokens directly before `impl`, the inner_attribute tokens as #![..] first inside the fn body — and no marker of another instruction occurs anywhere in that impl. Non-trivial = >= 2 params on one instruction, or a multi-impl shortcut carrying a param; distinct by input text.".into()
     }
     fn cases(&self, tier: Tier) -> usize {
         match tier {
@@ -56,6 +56,9 @@ impl Part for AttrPlacement {
         let mut attrs: Vec<Attr> = vec![];
         let mut labels = vec![if is_enum { "enum".to_string() } else { "struct".to_string() }];
         let mut nontrivial = false;
+        // an enum whose Into instructions are all quick returns may hold a variant only From can render (#[pattern(_)]): the body such
+        // a variant has no arm for is replaced anyway
+        let returns_everywhere = is_enum && t.chance(1, 3);
         for i in 0..n {
             let mut name = t.pick(&TRAIT_NAMES).to_string();
             if is_enum && name.contains("existing") {
@@ -85,7 +88,9 @@ impl Part for AttrPlacement {
             }
             t.shuffle(&mut params);
             let np = params.len();
+            let has_into_kind = kinds.iter().any(|k| *k == crate::dsl::OI || *k == crate::dsl::RI);
             match t.below(5) {
+                _ if returns_everywhere && has_into_kind => params.push(TParam::Return(format!("make{}(@)", i))),
                 0 if !name.contains("existing") && !is_enum => params.push(TParam::Update("Default::default()".into())),
                 1 => params.push(TParam::Return(format!("make{}(@)", i))),
                 2 if is_enum => params.push(TParam::DefaultCase("todo!()".into())),
@@ -103,7 +108,14 @@ impl Part for AttrPlacement {
         }
         let body_kind = if is_enum { 0 } else { 1 + t.weighted(&[3, 2, 2]) };
         let body = match body_kind {
-            0 => Body::Enum(vec![VariantDef { attrs: vec![], name: "V0".into(), shape: Shape::Unit, fields: vec![] }, VariantDef { attrs: vec![Attr::bare(Instr::Ghost { name: "ghost".into(), ded: None, action: None })], name: "G".into(), shape: Shape::Unit, fields: vec![] }]),
+            0 => {
+                let mut vs = vec![VariantDef { attrs: vec![], name: "V0".into(), shape: Shape::Unit, fields: vec![] }, VariantDef { attrs: vec![Attr::bare(Instr::Ghost { name: "ghost".into(), ded: None, action: None })], name: "G".into(), shape: Shape::Unit, fields: vec![] }];
+                if returns_everywhere {
+                    labels.push("from-only-variant-beside-quick-returns".into());
+                    vs.push(VariantDef { attrs: vec![Attr::bare(Instr::Raw { name: "pattern".into(), args: Some("_".into()) })], name: "W".into(), shape: Shape::Unit, fields: vec![] });
+                }
+                Body::Enum(vs)
+            }
             1 => Body::Struct(Shape::Named, vec![FieldDef { attrs: vec![], name: Some("a".into()), ty: "i32".into() }]),
             2 => {
                 // a bare #[parent] member switches Into / IntoExisting to the post-init body: the attributes must still be there
